@@ -104,6 +104,9 @@ func (fv *FV) stateEnv(st *State, errs *[]string) *Env {
 			vars[f.Name()] = t
 		}
 	}
+	for k, v := range st.ghosts {
+		vars[k] = v
+	}
 	oldEnv := &Env{fv: fv, st: st, heap: map[string]Term{}, epoch: 0, vars: vars, pkgName: fv.pkgName(), err: errs}
 	env := &Env{fv: fv, st: st, heap: st.heap, epoch: st.epoch, vars: map[string]Term{}, pkgName: fv.pkgName(), err: errs, old: oldEnv}
 	for k, v := range vars {
